@@ -103,6 +103,16 @@ func fanCase(r *vk.Run, idx int) {
 				presets[j].Percentage = presets[j-1].Percentage + 0.25
 			}
 		}
+		if k > 1 && rng.Chance(1, 3) {
+			// nothing asks for the list to be ordered by percentage (distinct percentages, any order)
+			perm := rng.Perm(k)
+			shuffled := make([]fanspeedpb.Preset, k)
+			for j := range perm {
+				shuffled[j] = presets[perm[j]]
+			}
+			presets = shuffled
+			r.Count("fanspeed/configs-with-presets-not-ascending", 1)
+		}
 		at := rng.Intn(k)
 		cur = &traits.FanSpeed{Preset: presets[at].Name, PresetIndex: int32(at), Percentage: presets[at].Percentage, Direction: traits.FanSpeed_FORWARD}
 		opts = append(opts, fanspeedpb.WithPresets(presets...), fanspeedpb.WithInitialFanSpeed(proto.Clone(cur).(*traits.FanSpeed)))
